@@ -94,6 +94,60 @@ func execCase(t *testing.T, rc *RunCase, rngForGen func() chooser, keep bool, de
 		if leak != "" {
 			rr.Violations = append(rr.Violations, Violation{Property: "C13", Kind: "goroutine-leak", Detail: leak})
 		}
+	case rc.UCI != nil && rc.UCITwins > 0:
+		var a *UCIOutcome
+		var twins []*UCIOutcome
+		leak := bubble(t, func() {
+			a, twins = RunUCITwins(rc.UCI, func(w *uciWorld) chooser {
+				if rngForGen != nil {
+					return rngForGen()
+				}
+				return &replayChooser{steps: rc.UCI.Steps}
+			}, rc.UCITwins)
+		})
+		if a == nil || len(twins) != rc.UCITwins {
+			rr.Violations = append(rr.Violations, harnessViolation("bubble", leak))
+			return rr
+		}
+		if rngForGen != nil {
+			rc.UCI.Steps = a.Steps
+		}
+		vs, _ := monitorUCI(rc.UCI, a)
+		rr.Violations = vs
+		rr.SimUS, rr.Stats = a.SimUS, a.Stats
+		uciReach(a, rr)
+		rr.nontrivial = true
+		la := outLines(a)
+		for ti, tw := range twins {
+			tv, _ := monitorUCI(rc.UCI, tw)
+			rr.Violations = append(rr.Violations, tv...)
+			lt := outLines(tw)
+			rr.Stats["twin_comparisons"]++
+			for i := 0; i < len(la) || i < len(lt); i++ {
+				var x, y string
+				if i < len(la) {
+					x = la[i]
+				}
+				if i < len(lt) {
+					y = lt[i]
+				}
+				if x != y {
+					rr.Violations = append(rr.Violations, Violation{Property: "C08", Kind: "uci-twin-output", Step: i,
+						Detail: fmt.Sprintf("driver alone and driver twin%d (same commands, same search quanta, interleaved with another engine instance) differ at output line %d: %q vs %q", ti, i, x, y)})
+					break
+				}
+			}
+		}
+		if keep {
+			rr.History = eventsText(a.Events)
+			for ti, tw := range twins {
+				rr.History = append(rr.History, fmt.Sprintf("--- twin %d", ti))
+				rr.History = append(rr.History, eventsText(tw.Events)...)
+			}
+		}
+		if leak != "" {
+			rr.Violations = append(rr.Violations, Violation{Property: "C13", Kind: "goroutine-leak", Detail: "end of bubble: " + leak})
+		}
 	case rc.UCI != nil:
 		var out *UCIOutcome
 		var ch chooser
